@@ -92,6 +92,13 @@ MUTANTS = [
     (FC, 'j_extent = prime(j_intent)\n', 'j_extent = prime(intent)\n', ['fcbo.fcbo_dual'], 'breaks'),
     (FC, 'if x & intent == x:', 'if True:', ['fcbo.fast_generate_from'], 'equivalent'),
     (FC, 'stack.append((concept, j + 1, next_property_sets))', 'stack.append((concept, j + 2, next_property_sets))', ['fcbo.fast_generate_from'], 'breaks'),
+    (TL, '    if len(iterable) < 2:', '    if len(iterable) < 3:', ['tools.maximal'], 'breaks'),
+    (TL, '    if len(iterable) < 2:', '    if len(iterable) < 1:', ['tools.maximal'], 'equivalent'),
+    (TL, '            if not any(starmap(comparison, pairs)))', '            if any(starmap(comparison, pairs)))', ['tools.maximal'], 'breaks'),
+    (TL, '    iterable = set(iterable)\n    if len(iterable) < 2:', '    iterable = list(iterable)\n    if len(iterable) < 2:', ['tools.maximal'], 'breaks'),
+    (TL, 'groupby(permutations(iterable, 2), key=_groupkey)', 'groupby(permutations(iterable, 2), key=operator.itemgetter(1))', ['tools.maximal'], 'breaks'),
+    (CX, "        return junctors.Relations(self.properties,\n                                  self._extents.bools(),", "        return junctors.Relations(self.properties,\n                                  self._intents.bools(),", ['contexts.relations'], 'breaks'),
+    (CX, "                                  self._extents.bools(),\n                                  include_unary)", "                                  self._extents.bools(),\n                                  True)", ['contexts.relations'], 'breaks'),
     # completeness / exactly-once of FCbO (units fcbo.*.complete)
     (FC, 'stack.append((concept, j + 1, next_property_sets))', 'stack.append((concept, j + 2, next_property_sets))', ['fcbo.fast_generate_from.complete'], 'breaks'),
     (FC, '                if j_lower & intent == j_lower:', '                if True:', ['fcbo.fast_generate_from.complete'], 'breaks'),
